@@ -71,7 +71,8 @@ def read_client_conf():
         'tpm': Platform().default_tpm_scheme()
     }
     if path:
-        parser = ConfigParser()
+        # client.conf values are literal: no %-interpolation
+        parser = ConfigParser(interpolation=None)
         text = '[DEFAULT]\n'
         with open(path) as f:
             text += f.read()
